@@ -35,9 +35,17 @@ func (rr *RoundRobinStrategy) NextBackend(r *http.Request) *Backend {
 	// inside an unhealthy window; give up after one full turn.
 	now := time.Now()
 	n := uint64(len(rr.backends))
+	idx := uint64(0)
 	for i := uint64(0); i < n; i++ {
-		idx := atomic.AddUint64(&rr.current, 1) % n
+		idx = atomic.AddUint64(&rr.current, 1) % n
 		if backend := rr.backends[idx]; backend.eligible(now) {
+			return backend
+		}
+	}
+	// Concurrent pickers share the counter, so this caller's n probes need not have been
+	// n different backends: before giving up, look at every backend once
+	for i := uint64(1); i <= n; i++ {
+		if backend := rr.backends[(idx+i)%n]; backend.eligible(now) {
 			return backend
 		}
 	}
